@@ -138,12 +138,12 @@ Definition spec_plains (p : pool) (ct : ctx_table) (m : mask) (l : list pattr) (
 
 Definition spec_code (p : pool) (T : reader_tables) (cm : mask) (attr : str) (ms ml : N) (xr : list row) (attrs : list pattr) : ev :=
   let st := spec_plains p (rt_code T) cm attrs l_init in
-  ECode attr ms ml (frame_sources st) xr (loop_events (rt_code T) st).
+  ECode attr ms ml (frame_sources st) xr (loop_events (rt_code T) cm st).
 
 Definition spec_rc (p : pool) (T : reader_tables) (v : visitor) (attr : str) (k : nat) (c : N * N * list pattr) : ev :=
   ERc attr k (fst (fst c)) (snd (fst c))
     (match v_rc v k with
-     | Some m => Some (loop_events (rt_rc T) (spec_plains p (rt_rc T) m (snd c) l_init))
+     | Some m => Some (loop_events (rt_rc T) m (spec_plains p (rt_rc T) m (snd c) l_init))
      | None => None
      end).
 
@@ -179,13 +179,13 @@ Definition spec_attrs (p : pool) (T : reader_tables) (v : visitor) (ct : ctx_tab
 Definition spec_field (p : pool) (T : reader_tables) (v : visitor) (k : nat) (mb : member) : ev :=
   EField k (m_access mb) (m_name mb) (m_desc mb)
     (match v_field v k with
-     | Some m => Some (loop_events (rt_field T) (spec_attrs p T v (rt_field T) m None (m_attrs mb) l_init))
+     | Some m => Some (loop_events (rt_field T) m (spec_attrs p T v (rt_field T) m None (m_attrs mb) l_init))
      | None => None
      end).
 Definition spec_method (p : pool) (T : reader_tables) (v : visitor) (k : nat) (mb : member) : ev :=
   EMethod k (m_access mb) (m_name mb) (m_desc mb)
     (match v_method v k with
-     | Some m => Some (loop_events (rt_method T) (spec_attrs p T v (rt_method T) m (v_code v k) (m_attrs mb) l_init))
+     | Some m => Some (loop_events (rt_method T) m (spec_attrs p T v (rt_method T) m (v_code v k) (m_attrs mb) l_init))
      | None => None
      end).
 
@@ -197,7 +197,7 @@ Fixpoint spec_members (skip : bool) (f : nat -> member -> ev) (k : nat) (l : lis
 
 Definition spec_class (T : reader_tables) (v : visitor) (h : header) (c : cls) : option (list ev) :=
   if v_accept_class v then
-    Some (loop_events (rt_class T) (spec_attrs (h_pool h) T v (rt_class T) (v_class v) None (c_attrs c) l_init)
+    Some (loop_events (rt_class T) (v_class v) (spec_attrs (h_pool h) T v (rt_class T) (v_class v) None (c_attrs c) l_init)
           ++ spec_members (rt_honours_fields T && negb (interested (v_class v) FIELDS)) (spec_field (h_pool h) T v) 0 (c_fields c)
           ++ spec_members (rt_honours_methods T && negb (interested (v_class v) METHODS)) (spec_method (h_pool h) T v) 0 (c_methods c))
   else None.
